@@ -942,16 +942,36 @@ func (p *Process) onLivenessCheckEnd(_, isFatal bool, err string) {
 
 func (p *Process) onReadinessCheckEnd(isOk, isFatal bool, err string) {
 	if isFatal {
-		p.setHealth(types.ProcessHealthNotReady)
+		if !p.setProbedHealth(types.ProcessHealthNotReady) {
+			return
+		}
 		log.Info().Msgf("%s is not ready anymore - %s", p.getName(), err)
 		p.logBuffer.Write("Error: readiness check fail - " + err)
 		_ = p.internalStop()
 	} else if isOk {
-		p.setHealth(types.ProcessHealthReady)
-		p.readyCancelFn()
+		if p.setProbedHealth(types.ProcessHealthReady) {
+			p.readyCancelFn()
+		}
 	} else {
-		p.setHealth(types.ProcessHealthNotReady)
+		p.setProbedHealth(types.ProcessHealthNotReady)
 	}
+}
+
+// setProbedHealth records the result of a readiness check - unless the command it probed
+// is not running anymore: a check that completes while the process is being stopped must
+// not bring back the readiness the stop has just forgotten.
+func (p *Process) setProbedHealth(health string) bool {
+	p.stateMtx.Lock()
+	defer p.stateMtx.Unlock()
+	if p.superseded.Load() {
+		return false
+	}
+	switch p.procState.Status {
+	case types.ProcessStateRunning, types.ProcessStateLaunching, types.ProcessStateLaunched:
+		p.procState.Health = health
+		return true
+	}
+	return false
 }
 
 func (p *Process) validateProcess() error {
